@@ -56,7 +56,7 @@ def gen_weights(rnd, n, kind):
             w = [round(rnd.uniform(-0.8, 2.0), 3) for _ in range(n)]
             if not any(x < 0 for x in w):
                 w[rnd.randrange(n)] = -0.4
-        if sum(w) > 0.25 * sum(abs(x) for x in w):
+        if sum(w) > 0.25 * sum(abs(x) for x in w) and all(abs(x) >= 0.05 for x in w):
             return w
 
 
@@ -431,9 +431,10 @@ def part_goals_res(s, gi, pi, p, batch, fb, tag):
         sc = "map (rscale a2) (chunk %d W)" % R
         a3frag = bound_frag("a3", "rsum (concat (%s)) / rsum (sqs (ev_weights (%s)))" % (sc, sc), 1.0, "a3, W", "sqs " + RESF, rel=0, absd=1e-10)
         stmt = L4 + le("nll_call_res %s (chunk %d W) (chunk %d f) V g" % (ext, R, R), p.call, tol_of(p.call, scale))
-        tac = ("intros W f V g; cbv [nll_call_res nll_base_res scale_res alpha_res]; " + a2frag + a3frag + dens_cert("")
-               + "rewrite map_clip_log_shortfall by (unfold W, f; cbv [shortfall rmax eps_clip %s]; %s); " % (RESF, IP)
-               + "unfold W, f, V, g; cbv [%s int_f]; %s" % (RESF, IP))
+        # the event density is invariant under the re-applied alpha (NLL_proofs.ev_density_scaled_cert): exact literals under clip_log
+        tac = ("intros W f V g; cbv [nll_call_res nll_base_res scale_res alpha_res]; " + a2frag + a3frag
+               + "rewrite (ev_density_scaled_cert %s a2) by (first [ lra | (apply Rgt_not_eq; lra) | (unfold W; cbv [shortfall rmax sqs %s]; %s) ]); " % (CERT, RESF, IP)
+               + "rewrite map_clip_log_abs; unfold W, f, V, g; cbv [%s %s int_f]; %s" % (RESF, CLIP, IP))
         out.append((base + "_C", stmt, tac, {"layer": "call", "site": "Model.nll / BaseModel.nll (resolution_size)"}))
         if p.gradval is not None:
             stmt = L4 + le("nll_gradval_res %s (chunk %d W) (chunk %d f) V g" % (ext, R, R), p.gradval, tol_of(p.gradval, scale))
@@ -559,7 +560,7 @@ def run_scenario(ctx, rnd, s, npoints, all_batches):
     phases = [("point", pi) for pi in range(npoints)]
     if s.gc and not s.clip:
         phases.append(("fixed", npoints))
-    if not s.clip:
+    if not s.clip and (ctx.tier != "quick" or s.ngroup == 1 or s.model in ("cfit", "cfit_cached")):
         phases.append(("second", npoints + 1))
     fixed = []
     for kind, pi in phases:
@@ -598,6 +599,8 @@ def run_scenario(ctx, rnd, s, npoints, all_batches):
                 parts.append(p)
                 if bi == 0:
                     gl = part_goals(s, gi, pi, p, batch, fb, "b%d" % batch)
+                    if kind == "fixed" or (kind == "point" and pi > 0):  # same FCN weights as at the first point
+                        gl = [c for c in gl if not (c[0].endswith("_W") or c[0].endswith("_V"))]
                     ref_grad[gi] = p.gradval
                 else:
                     # further batch sizes: the model term of layer G does not depend on the batch split
